@@ -325,9 +325,25 @@ ADDED2 = {
     'C18': ' Q1: the preload file is read whole (buffer sized from the measured file size). Q8: written-before-read and loop progress in the CLI code.',
     'C19': ' Q1/Q8 as for C18.',
 }
-for _pid, _t in ADDED2.items():
-    ADDED.setdefault(_pid, {})
-    ADDED[_pid]['text'] = ADDED[_pid].get('text', '') + _t
+ADDED3 = {
+    'C02': ' A10: no double free / use after free. The join of the bounds engine proposes invariants for lockstep counters and sums without unknown unsigned terms.',
+    'C03': ' B9 released blocks are left alone; B10 a failed read/write ends its loop.',
+    'C04': ' R1 also: nothing reachable from the configuration constructor emits (the configuration is loaded before the chain is consulted). '
+           'R4: the devlog socket is "/dev/log" or a configured path whose default is "/dev/log".',
+    'C07': ' F2 also: within one turn of the chain loop only the element\'s own text, the registry\'s answer and a DROP verdict decide whether '
+           'the filter call is reached. F4 shares the silent-configuration clause of C04.',
+    'C08': ' T3 also: the syslog converters return table values only; further accepted names must be documented aliases of printable values.',
+    'C11': ' N5: nothing reachable from the configuration constructor/destructor writes static storage.',
+    'C14': ' U3 accepts a countdown walk over the list; an item judged through another helper ends "not decided".',
+    'C17': ' W1 reads open flags from a local flags variable (bits set on every path / on some path).',
+    'C18': ' Q3 also: the text read from the file is not stored into (or every store is undone on every path) before the new content is built.',
+    'C19': ' Q5 also: the text read from the file is left intact (as C18 Q3).',
+    'C20': ' AT1 follows the live path into the parameters of helpers and out of functions returning it; link() of the live file is not a move-away.',
+}
+for _d in (ADDED2, ADDED3):
+    for _pid, _t in _d.items():
+        ADDED.setdefault(_pid, {})
+        ADDED[_pid]['text'] = ADDED[_pid].get('text', '') + _t
 for _pid, _a in ADDED.items():
     CLAIMED[_pid]['text'] += _a.get('text', '')
     if 'note_replace' in _a:
